@@ -111,9 +111,9 @@ def random_case(draw):
 
     def bins():
         nb = draw(st.integers(1, 12))
-        lo = draw(st.sampled_from([0.5, 1.0, 2.0]))
+        lo = draw(st.sampled_from([0.5, 1.0, 2.0, 0.0, 0, -2.0]))     # zero and negative first edges are valid bin sets
         hi = lo + draw(st.sampled_from([1.0, 10.0, 30.0]))
-        e, _ = emd.spectra.define_hist_bins(lo, hi, nb, scale=draw(st.sampled_from(['linear', 'log'])))
+        e, _ = emd.spectra.define_hist_bins(lo, hi, nb, scale=draw(st.sampled_from(['linear', 'log'])) if lo > 0 else 'linear')
         return np.asarray(e, dtype=float), lo, hi
     e1, lo1, hi1 = bins()
     e2, lo2, hi2 = bins()
